@@ -239,6 +239,8 @@ func (e *Exec) patternIntrinsicHarness(fn *ssa.Function, name string) Intrinsic 
 				e.BranchSliceHops = val
 			case "lazy":
 				e.Lazy = val != 0
+			case "lazy_math":
+				e.LazyMath = val != 0
 			case "bitlen_dense":
 				e.BitLenDense = val
 			default:
